@@ -245,6 +245,17 @@ def main():
         ntl = "some true" if m_s.start() < m_e.start() else "some false"
     elif m_s and "SuspendNoThreadsLeft" in mwsrc:
         ntl = "some false" if re.search(r"let\s+\w+\s*=\s*dumper\.threads\.is_empty\(\)", mwsrc[:m_s.start()]) else "none"
+    # fill_thread_stack: the stack pointer's offset into the copy is its distance from the start of the copy, 0 when it
+    # lies below (tl = thread_list_stream.rs, read above)
+    sp_off = "none"
+    mo = re.search(r"let\s+stack_pointer_offset\s*=\s*([^;]+);", tl)
+    if mo:
+        sp_off = "some true" if re.sub(r"\s+", "", mo.group(1)) == "stack_ptr.saturating_sub(valid_stack_ptr)" else "some false"
+    # app_memory::write: one copy and one recorded block per requested region — no `continue` / `break` / filter in the loop
+    app_noskip = "none"
+    ml = re.search(r"for\s+app_memory\s+in\s+&config\.app_memory\s*\{(.*)\n    \}\n", am, re.S)
+    if ml:
+        app_noskip = "some false" if re.search(r"\bcontinue\b|\bbreak\b|\breturn\s+Ok", ml.group(1)) else "some true"
     out = []
     out.append("/- GENERATED by gen/extract.py from /repo's source — do not edit. -/")
     out.append("namespace Mdw.Src\n")
@@ -271,6 +282,8 @@ def main():
     out.append(f"\n/-- `enumerate_mappings` assigns the aggregation of the memory map to the dumper's list — it does not add to what an earlier `init` left there (none = not recognisable) -/\ndef enumerateMappingsReplaces : Option Bool := {maps_replaced}")
     out.append(f"\n/-- `suspend_threads` is a `retain` over `suspend_thread`, with no other loop or removal (none = not recognisable) -/\ndef suspendUsesRetain : Option Bool := {uses_retain}")
     out.append(f"\n/-- `dump()` tests for an empty thread list *after* `suspend_threads` and reports `SuspendNoThreadsLeft` then (none = not recognisable) -/\ndef noThreadsLeftAfterSuspend : Option Bool := {ntl}")
+    out.append(f"\n/-- `fill_thread_stack` takes `stack_ptr.saturating_sub(valid_stack_ptr)` as the stack pointer's offset into the copy (none = not recognisable) -/\ndef spOffsetSaturating : Option Bool := {sp_off}")
+    out.append(f"\n/-- the loop of `app_memory::write` has no `continue` / `break` / early `Ok` return: every requested region is copied and recorded (none = not recognisable) -/\ndef appLoopNoSkip : Option Bool := {app_noskip}")
     out.append("\nend Mdw.Src\n")
     text = "\n".join(out)
     os.makedirs(os.path.dirname(OUT), exist_ok=True)
